@@ -38,7 +38,7 @@ structure Crypto where
 inductive Err
   | eof | unexpectedEOF | auth | zeroLenChunk | firstRead | prefixMismatch | typeMismatch
   | badTimestamp | saltMismatch | zeroRespLen | userNotFound | addr | incompleteHeader
-  | paddingExceeds | fuel | nilDeref
+  | paddingExceeds | fuel | nilDeref | timeout
   deriving DecidableEq, Repr, Inhabited
 
 def Err.name : Err → String
@@ -46,7 +46,7 @@ def Err.name : Err → String
   | .firstRead => "first-read" | .prefixMismatch => "prefix-mismatch" | .typeMismatch => "type-mismatch"
   | .badTimestamp => "bad-timestamp" | .saltMismatch => "salt-mismatch" | .zeroRespLen => "zero-response-length"
   | .userNotFound => "user-not-found" | .addr => "addr" | .incompleteHeader => "incomplete-header"
-  | .paddingExceeds => "padding-exceeds" | .fuel => "fuel" | .nilDeref => "panic-nil-deref"
+  | .paddingExceeds => "padding-exceeds" | .fuel => "fuel" | .nilDeref => "panic-nil-deref" | .timeout => "timeout"
 
 /-! ### big-endian integers -/
 
@@ -298,13 +298,34 @@ def failedOut (op : ROp) (e : Err) : ROut :=
   | .read _ => .fail e
   | _ => .copied [] (some e)
 
-/-- a `ShadowStreamConn` reading side with its sticky error (`readErr`). `readErrorsSticky` is the
-regenerated fact that `read` starts with the guard and records the first error other than
-`io.EOF`; with the fact `false` the model mirrors the unguarded code: later calls go on with whatever
-cipher/transport state the failed call left behind. -/
+/-- the call ran into the end of the current stretch of the transport -/
+def ROut.hitEnd : ROut → Bool
+  | .fail .eof => true
+  | .fail .unexpectedEOF => true
+  | .copied _ none => true
+  | .copied _ (some .unexpectedEOF) => true
+  | _ => false
+
+/-- the same outcome when the stretch ended in a read deadline, not in the end of the stream -/
+def ROut.asTimeout : ROut → ROut
+  | .fail _ => .fail .timeout
+  | .copied ps _ => .copied ps (some .timeout)
+  | o => o
+
+/-- a `ShadowStreamConn` reading side with its sticky error (`readErr`) on a transport with read
+deadlines: the transport delivers `r.wire`, then a `Read` call of the transport returns a timeout
+error with 0 bytes, then it delivers the first stretch of `later`, and so on; after the last
+stretch comes the end of the stream.
+
+Regenerated facts: `readErrorsSticky` — `read` starts with the `readErr` guard and records failures;
+`boundaryTimeoutRetryable` — a failure of the first `io.ReadFull` of `read` that consumed nothing
+(end of stream, deadline at a chunk boundary) is not recorded, every other failure is (except
+`io.EOF`). With `readErrorsSticky = false` the model mirrors the unguarded code: later calls go on
+with whatever cipher/transport state the failed call left behind. -/
 structure SReader where
   r : Reader
   err : Option Err := none
+  later : List Bytes := []
   deriving Repr
 
 def SReader.step (C : Crypto) (s : SReader) (op : ROp) : ROut × SReader :=
@@ -312,7 +333,28 @@ def SReader.step (C : Crypto) (s : SReader) (op : ROp) : ROut × SReader :=
   | some e => (failedOut op e, s)
   | none =>
     let (o, r') := s.r.step C op
-    (o, { r := r', err := if readErrorsSticky then o.hardErr else none })
+    match s.later with
+    | [] => (o, { r := r', err := if readErrorsSticky then o.hardErr else none, later := [] })
+    | nx :: rest =>
+      if o.hitEnd then
+        -- bytes of an unfinished chunk were consumed: part of a chunk (`io.ErrUnexpectedEOF` on the
+        -- stretch), or a whole length chunk whose payload chunk has not arrived (odd nonce advance)
+        let mid := o.err == some .unexpectedEOF || r'.nonce % 2 != s.r.nonce % 2
+        let stick := readErrorsSticky && (mid || !boundaryTimeoutRetryable)
+        (o.asTimeout, { r := { r' with wire := r'.wire ++ nx }, err := if stick then some .timeout else none, later := rest })
+      else (o, { r := r', err := if readErrorsSticky then o.hardErr else none, later := s.later })
+
+/-- cut a wire at offsets (ascending, relative to `pos`) into the stretches between read deadlines -/
+def cutAt : List Nat → Nat → Bytes → List Bytes
+  | [], _, w => [w]
+  | t :: ts, pos, w => w.take (t - pos) :: cutAt ts (max t pos) (w.drop (t - pos))
+
+/-- a reader whose transport will report read deadlines at the absolute stream offsets `touts`,
+`consumed` bytes of the stream having been read before `r.wire` -/
+def installTimeouts (r : Reader) (touts : List Nat) (consumed : Nat) : SReader :=
+  match cutAt (touts.map (· - consumed)) 0 r.wire with
+  | [] => { r := r }
+  | w0 :: rest => { r := { r with wire := w0 }, later := rest }
 
 /-- run a whole schedule, going on after errors (a caller that reads again after a failed read) -/
 def SReader.run (C : Crypto) : SReader → List ROp → List ROut
@@ -629,6 +671,12 @@ structure CReader where
   r : Option Reader
   /-- `readErr` -/
   err : Option Err := none
+  /-- absolute offsets (ascending) in the server→client stream at which the transport reports a
+  read deadline, until the first call has set up the reader; `total`: length of that stream -/
+  touts : List Nat := []
+  total : Nat := 0
+  /-- stretches still to come, once the reader exists (cf. `SReader.later`) -/
+  later : List Bytes := []
   deriving Repr
 
 /-- `ParseTCPResponseHeader` -/
@@ -722,22 +770,59 @@ def CReader.tunnel (C : Crypto) (c : CReader) (now : Int) (started : Bool) : ROu
     else (.copied [] (some .nilDeref), c)
   | none => c.firstCopy C now (fun r => r.tunnel C)
 
-/-- the client conn with its sticky error: errors are recorded once the read cipher exists
-(`initRead` after `readCipher` is assigned, `readFirstPayloadChunk`, `read`) -/
-def CReader.sticky (c : CReader) (op : ROp) (f : CReader → ROut × CReader) : ROut × CReader :=
+/-- the client conn with its sticky error, on a transport with read deadlines. Before the first
+read succeeded a deadline is only modelled at offset 0 (nothing of the response consumed: the call
+fails, nothing changes); afterwards the conn is a plain `ShadowStreamConn` (`SReader`).
+A failure of the first call is recorded once the read cipher exists; with
+`boundaryTimeoutRetryable` (the narrower repair) also when bytes of the header were consumed. -/
+def CReader.stepT (C : Crypto) (c : CReader) (now : Int) (started : Bool) (op : ROp) : ROut × CReader :=
   match (if readErrorsSticky then c.err else none) with
   | some e => (failedOut op e, c)
   | none =>
-    let (o, c') := f c
-    (o, if readErrorsSticky && c'.r.isSome then { c' with err := o.hardErr } else c')
+    match c.r with
+    | some r =>
+      if op = .tunnel && !started && !tunnelGuardsUnstartedServer then (.copied [] (some .nilDeref), c)
+      else
+        let op' := if op = .tunnel && !started then .writeTo else op
+        let (o, s') := SReader.step C { r := r, later := c.later } op'
+        (o, { c with r := some s'.r, err := s'.err, later := s'.later })
+    | none =>
+      match c.touts with
+      | 0 :: ts => (failedOut op .timeout, { c with touts := ts })
+      | _ =>
+        let record (o : ROut) (c' : CReader) : CReader :=
+          let consumed := c'.r.isSome || decide (c'.segs.flatten.length < c.segs.flatten.length)
+          if readErrorsSticky && (if boundaryTimeoutRetryable then consumed else c'.r.isSome) then { c' with err := o.hardErr } else c'
+        match op with
+        | .read n =>
+          let (o, c') := c.read C now n
+          match c'.r with
+          | some r' =>
+            let s0 := installTimeouts r' c.touts (c.total - r'.wire.length)
+            (o, record o { c' with r := some s0.r, later := s0.later, touts := [] })
+          | none => (o, record o c')
+        | _ =>
+          match initRead C c now with
+          | (.error .eof, c') => (.copied [] none, c')
+          | (.error e, c') => (.copied [] (some e), record (.copied [] (some e)) c')
+          | (.ok len, c') =>
+            match firstPayload C c' len with
+            | (.error e, c'') => (.copied [] (some e), record (.copied [] (some e)) c'')
+            | (.ok p, c'') =>
+              match c''.r with
+              | none => (.copied [p] (some .fuel), c'')
+              | some r =>
+                let s0 := installTimeouts r c.touts (c.total - r.wire.length)
+                let (o, s') := SReader.step C s0 (if op = .tunnel then .tunnel else .writeTo)
+                ((o.prepend p), { c'' with r := some s'.r, err := s'.err, later := s'.later, touts := [] })
 
 def CReader.readS (C : Crypto) (c : CReader) (now : Int) (n : Nat) : ROut × CReader :=
-  c.sticky (.read n) (fun c => c.read C now n)
+  c.stepT C now true (.read n)
 
 def CReader.writeToS (C : Crypto) (c : CReader) (now : Int) : ROut × CReader :=
-  c.sticky .writeTo (fun c => c.writeTo C now)
+  c.stepT C now true .writeTo
 
 def CReader.tunnelS (C : Crypto) (c : CReader) (now : Int) (started : Bool) : ROut × CReader :=
-  c.sticky .tunnel (fun c => c.tunnel C now started)
+  c.stepT C now started .tunnel
 
 end SSV.Stream
